@@ -13,7 +13,8 @@ Nat8(bs) == BytesToNat(bs)
 
 Init == l = 1 /\ sts = <<>>
 Reset == Is("reset") /\ Step /\ sts' = <<>>
-New == Is("st_new") /\ Step /\ sts' = Put(sts, Ev.o, Empty)
+SizesOf(e) == IF "sizes" \in DOMAIN e THEN [zeta |-> e.sizes[1], golomb |-> e.sizes[2], exp_golomb |-> e.sizes[3], rice |-> e.sizes[4], pi |-> e.sizes[5]] ELSE DefaultSizes
+New == Is("st_new") /\ Step /\ sts' = Put(sts, Ev.o, Empty(SizesOf(Ev)))
 Upd == /\ Is("st_update") /\ Step
        /\ Ev.ret = Ev.v
        /\ sts' = [sts EXCEPT ![Ev.o] = Update(@, Nat8(Ev.v), Nat8(Ev.count))]
@@ -22,9 +23,9 @@ AddE == Is("st_add") /\ Step /\ sts' = [sts EXCEPT ![Ev.o] = Plus(@, sts[Ev.o2])
 Fields(e) == <<e.unary, e.gamma, e.delta, e.omega, e.vbyte>> \o e.zeta \o e.golomb \o e.exp_golomb \o e.rice \o e.pi
 Snap == /\ Is("st_snap") /\ Step /\ UNCHANGED sts
         /\ LET s == sts[Ev.o]  f == Fields(Ev)
-           IN  /\ Len(f) = NT
+           IN  /\ Len(f) = NTOf(s.sz)
                /\ Nat8(Ev.total) = s.total
-               /\ \A i \in 1..NT : Nat8(f[i]) = s.t[i]
+               /\ \A i \in 1..NTOf(s.sz) : Nat8(f[i]) = s.t[i]
 Best == /\ Is("st_best") /\ Step /\ UNCHANGED sts
         /\ BestOK(sts[Ev.o], Code(Ev.c, Ev.k, Nat8(Ev.cb)), Nat8(Ev.cost))
         \* writing the values with the reported code takes exactly that many bits
